@@ -2,28 +2,42 @@
 from propcommon import COMMON_MODELLED
 PROP = dict(
         gotest="TestC17",
-        translator="handlers",
-        model="coq/Models/Authority.v (skeleton semantics) over coq/Generated/Handlers.v (regenerated from the Go sources by tools/gotrans on every run)",
-        coq_deps=["Base/Res.v", "Models/Authority.v", "Generated/Handlers.v", "Proofs/AuthorityProofs.v", "Run/AuthorityRun.v", "Props/C17.v"],
+        translator=["handlers", "ownerflow"],
+        model="coq/Models/Authority.v (skeleton semantics) over coq/Generated/Handlers.v, and coq/Models/OwnerFlow.v (object-selection semantics) over "
+              "coq/Generated/OwnerFlow.v (both tables regenerated from the Go sources by tools/gotrans on every run)",
+        coq_deps=["Base/Res.v", "Models/Authority.v", "Generated/Handlers.v", "Proofs/AuthorityProofs.v", "Run/AuthorityRun.v",
+                  "Models/OwnerFlow.v", "Generated/OwnerFlow.v", "Proofs/OwnerFlowProofs.v", "Run/OwnerFlowRun.v", "Props/C17.v"],
         rule="one populated market (pools, vault, leveragelp position, perpetual MTP, pending spot + perpetual orders, airdrop); the router's own list of "
              "elys Msg types (InterfaceRegistry.ListImplementations) is compared with the translator's table in both directions; every governance-only "
              "type is delivered from 5 non-authority signers (user, module account, zero address, empty, garbage) x up to 3 payloads (zero, generic fill, "
              "hand-made payload that the authority itself gets accepted) and once from the authority; every owner-scoped type from 2 non-owners and "
              "from the owner; all stores (KV, transient, memory) are hashed on the handler's own branch after it returned and on the root after the tx; "
+             "owner-flow sweep: an attacker account that owns nothing sends every type classified A/B/C by `gotrans ownerflow` (hand-made messages naming "
+             "the live orders / positions / MTPs of other accounts, batch variants with one and with all foreign ids, claims, feeder and commitment "
+             "messages; reflection-filled messages for the rest) and the four reviewed permissionless triggers; after each delivery a snapshot of every "
+             "object owned by somebody else (records + balances of owners and sub-accounts) is compared on the handler's branch; "
              "distinct = (type, signer class, payload, result); non-trivial = payload that the authority gets accepted / that the owner gets accepted",
         trusted_base=["tools/gotrans (Go AST -> skeleton): trusted for what it omits inside a handler (a write hidden behind a call that is named like a getter); "
                       "its set of handlers, Authority fields, signer fields and write-freedom are cross-checked against the production router on every run",
+                      "tools/gotrans ownerflow (Go AST -> object-selection skeleton): trusted for (1) its rule of what an OWNED record type is (a stored struct with a string "
+                      "field OwnerAddress/Owner/Creator/Address/Delegator/User/Authority/Feeder; amm.Pool and assetprofile.Entry excluded), (2) writes that reach an owned object "
+                      "without a preceding read of it other than Remove*/Delete* by id, (3) the name-based read/write split of handlers.go; a handler it cannot classify comes out "
+                      "class U and breaks the obligation unless it is in Models/OwnerFlow.v [reviewed] (4 permissionless triggers, justified there)",
                       "the SDK ties the transaction signer to the field named by cosmos.msg.v1.signer (checked per type against codec.GetMsgV1Signers)"],
         modelled="handler bodies abstracted to ordered skeletons {Pure, Read, Check, GuardAuthority, GuardOwner, KeyedLookup, Write, Return}; everything that is "
                  "not an authorisation decision is nondeterministic (theorems quantify over all choices). " + COMMON_MODELLED,
         level_text="Theorems (Coq, closed under the global context): in the table of ALL Msg handlers regenerated from the current Go sources, every governance-only "
                    "handler has the authority comparison on its signer field before anything that can write (vm_compute over the table), hence for every such "
                    "handler, every non-authority signer, every state and every behaviour of the rest of the handler the result is Unauthorized with the state "
-                   "unchanged (handler level). Owner-scoped analogue for handlers with an owner comparison or a signer-keyed lookup (partial: batch variants). "
+                   "unchanged (handler level). Owner-scoped: (first form, partial) error + state unchanged for handlers with a top-level owner comparison or signer-keyed lookup; (second form, all handlers) "
+                   "in the regenerated object-selection table every handler is classified signer-keyed / id+owner comparison / inner handler fed from the outer signer / not "
+                   "object-scoped / governance-only (4 reviewed permissionless triggers excepted), hence for every such handler - single and batch -, every message, store and "
+                   "behaviour of the rest, an object whose stored owner is not the signer is unchanged when the handler returns, and for id-addressed handlers nothing at all is "
+                   "written when every addressed object is foreign. "
                    "The table is tied to the production router by the correspondence run (set equality of message types, Authority fields, signers; observed "
                    "rejections and store hashes replayed against the skeleton semantics by Coq's VM).",
-        level_note="Trusted: Coq kernel+VM; tools/gotrans for writes it cannot see inside getter-named calls; the Go harness. Owner-scoped part is partial "
-                   "(CancelSpotOrders/CancelPerpetualOrders/ClosePositions are only exercised dynamically).",
+        level_note="Trusted: Coq kernel+VM; tools/gotrans for writes it cannot see inside getter-named calls; the Go harness. tools/gotrans ownerflow for its owned-type rule and for blind writes. "
+                   "Reviewed (class U, permissionless by design): perpetual.ClosePositions, leveragelp.ClosePositions, tradeshield.ExecuteOrders, tier.SetPortfolio.",
         assumptions=["the transaction signer equals the request's signer field (SDK signature verification)",
                      "a call named Get*/Has*/Is*/Check*/Calc*/Validate*... on a keeper does not write (translator's getter rule)"],
         timeout_quick=600,
